@@ -30,6 +30,10 @@ pub enum Basis {
     Poly(usize, usize),
     /// (a_p + x)^2 (polynomial, exact on small integers)
     Sq(usize),
+    /// 1 + x : linearly dependent on Const and Lin (rank-deficient basis matrices)
+    Affine,
+    /// 0 : a vanishing basis function
+    Zero,
 }
 
 impl Basis {
@@ -48,12 +52,14 @@ impl Basis {
             "expcos" => Basis::ExpCos(ix(1), ix(2)),
             "poly" => Basis::Poly(ix(1), ix(2)),
             "sq" => Basis::Sq(ix(1)),
+            "affine" => Basis::Affine,
+            "zero" => Basis::Zero,
             _ => panic!("unknown basis {name}"),
         }
     }
     pub fn deps(&self) -> Vec<usize> {
         match *self {
-            Basis::Const | Basis::Lin => vec![],
+            Basis::Const | Basis::Lin | Basis::Affine | Basis::Zero => vec![],
             Basis::ExpDecay(p) | Basis::ExpRate(p) | Basis::Rat(p) | Basis::Cos(p) | Basis::Sq(p) => {
                 vec![p]
             }
@@ -67,6 +73,8 @@ impl Basis {
         match *self {
             Basis::Const => one,
             Basis::Lin => x,
+            Basis::Affine => one + x,
+            Basis::Zero => T::zero(),
             Basis::ExpDecay(_) => Float::exp(-x / a[0]),
             Basis::ExpRate(_) => Float::exp(-a[0] * x),
             Basis::Gauss(_, _) => Float::exp(-(x - a[0]) * (x - a[0]) / (two * a[1] * a[1])),
